@@ -277,9 +277,10 @@ pub fn rand_step(rng: &mut Rng, valid_pub: &[Vec<u8>]) -> String {
                 })
                 .collect();
             format!(
-                "step op=remove_insert rm={} ins={}",
+                "step op=remove_insert rm={} ins={} it={}",
                 if rm.is_empty() { "-".into() } else { rm.join(",") },
-                if ins.is_empty() { "-".into() } else { ins.join(",") }
+                if ins.is_empty() { "-".into() } else { ins.join(",") },
+                rng.pick(&["exact", "exact", "filter", "flatmap", "fromfn", "chain", "overhint", "underhint"])
             )
         }
         22 => format!("step op=set_public_key pk={}", rng.below(3)),
@@ -328,6 +329,10 @@ pub fn rep_steps(valid_pub: &[Vec<u8>], small: bool) -> Vec<String> {
         "step op=remove_key key=6970".into(),
         "step op=remove_insert rm=746370 ins=746f70696373:0102".into(),
         "step op=remove_insert rm=- ins=6970:3132333435".into(),
+        "step op=remove_insert rm=756470 ins=746f70696373:0102,7a:01 it=filter".into(),
+        "step op=remove_insert rm=6970 ins=7a7a:05 it=fromfn".into(),
+        "step op=remove_insert rm=746370 ins=6970:7f000001 it=overhint".into(),
+        "step op=remove_insert rm=- ins=61:62 it=flatmap".into(),
         "step op=remove_insert rm=6964 ins=-".into(),
         "step op=remove_insert rm=- ins=736563703235366b31:6a756e6b".into(),
         "step op=remove_insert rm=- ins=746370:0050".into(),
@@ -509,12 +514,20 @@ pub fn gen_hist(schemes: &[&str], rng: &mut Rng, thorough: bool, cases: &mut Vec
         let vp = valid_pubs(rng);
         let reps = rep_steps(&vp, !thorough);
         let (keys, _) = case_keys(scheme, rng);
+        // several key sets in rotation (cases run on many threads at once: different nodes' keys are
+        // then in use at the same time); the toy scheme's signature length depends on the key
+        let mut keysets = vec![keys.clone()];
+        if *scheme != "toy" {
+            for _ in 0..3 {
+                keysets.push(case_keys(scheme, rng).0);
+            }
+        }
         let init_list = inits(rng, sig_len_of(scheme, &keys));
         for (i, a) in reps.iter().enumerate() {
             for (j, b) in reps.iter().enumerate() {
                 let mut c = Case::new("hist", scheme, id, "depth2");
                 id += 1;
-                c.keys = keys.clone();
+                c.keys = keysets[(i + j) % keysets.len()].clone();
                 c.lines.push(init_list[(i * 31 + j) % init_list.len()].clone());
                 // signer roles rotate: own, other key, own with fault
                 let (s1, f1) = match (i + j) % 5 {
